@@ -53,7 +53,7 @@ REAL = ['asyncssh stream.py (SSHReader/SSHWriter/SSHStreamSession), '
         'process.py (SSHClientProcess/SSHServerProcess, redirection), '
         'channel, connection of both endpoints']
 STUB = ['event loop + clock', 'TCP', 'executor', 'OS randomness']
-PROBES = ['read_cancelled', 'async_iteration', 'mode_reader', 'mode_run', 'mode_redirect', 'text_mode',
+PROBES = ['redirect_concat', 'read_cancelled', 'async_iteration', 'mode_reader', 'mode_run', 'mode_redirect', 'text_mode',
           'tiny_packets', 'readuntil_multi', 'readuntil_regex',
           'incomplete_read_at_eof', 'limit_overrun', 'exit_signal',
           'exit_status', 'redirect_process', 'redirect_file',
@@ -92,7 +92,7 @@ def render(idx, text):
 
 TARGETS = ['file', 'devnull', 'process', 'stdin_file', 'stream_out',
            'stream_in', 'process_in', 'afile_out', 'afile_in',
-           'stderr_stdout', 'fileobj_out', 'drain_redirected']
+           'stderr_stdout', 'fileobj_out', 'drain_redirected', 'concat']
 
 
 def gen_chunks(rng, total):
@@ -179,6 +179,7 @@ def gen_plan(rng):
 
     if mode == 'redirect':
         plan['target'] = rng.choice(TARGETS)
+        plan['late'] = rng.choice([0, 0, 3, 10, 40, 150])
 
     return plan
 
@@ -233,6 +234,9 @@ def valid_plan(plan):
                     return False
 
         if plan['mode'] == 'redirect' and plan.get('target') not in TARGETS:
+            return False
+
+        if not 0 <= plan.get('late', 0) <= 300:
             return False
 
         return plan['exit'][0] in ('status', 'signal', 'none')
@@ -860,6 +864,27 @@ def run_plan(plan, sched_seed=None, sched_replay=None):
                     res['run'] = await proc.wait()
                     res['afile'] = af
                     sim.probes['redirect_async_file'] += 1
+                elif target == 'concat':
+                    # the output of two commands, one after the other, into
+                    # the stdin of a third: recv_eof=False keeps the target
+                    # open between the two, however late the redirect is
+                    # set up (the output and its EOF may be here already)
+                    sink = await conn.create_process('sink', **kw)
+
+                    for _i in range(2):
+                        src = await conn.create_process('source', **kw)
+
+                        for _ in range(plan.get('late', 0)):
+                            await sim.pause('late-redirect')
+
+                        await src.redirect_stdout(sink.stdin, recv_eof=False)
+                        await src.wait()
+
+                    sink.stdin.write_eof()
+                    await sink.wait()
+                    proc = sink
+                    res['run'] = 'n/a'
+                    sim.probes['redirect_concat'] += 1
                 elif target == 'process_in':
                     src = await conn.create_process('source', **kw)
                     proc = await conn.create_process('cmd', stdin=src.stdout,
@@ -876,7 +901,8 @@ def run_plan(plan, sched_seed=None, sched_replay=None):
                     await sink.wait()
                     sim.probes['redirect_process'] += 1
 
-                res['result'] = (proc.exit_status, proc.exit_signal)
+                if target != 'concat':
+                    res['result'] = (proc.exit_status, proc.exit_signal)
         except Exception as exc: # pylint: disable=broad-except
             res['exc'] = exc
 
@@ -1054,6 +1080,17 @@ def run_plan(plan, sched_seed=None, sched_replay=None):
                             (None if res['target_data'] is None
                              else len(res['target_data']), len(s_out)),
                             sig='process')
+                elif target == 'concat':
+                    if res['target_data'] != s_in + s_in:
+                        world.violation(
+                            'redirect-mismatch', 'stdout of two commands '
+                            'redirected in turn (recv_eof=False, set up '
+                            'after %d events) to a third one\'s stdin: it '
+                            'read %r units, 2 x %d sent' %
+                            (plan.get('late', 0),
+                             None if res['target_data'] is None
+                             else len(res['target_data']), len(s_in)),
+                            sig='concat')
                 elif target == 'stdin_file':
                     if res['srv_in'] != s_in:
                         world.violation(
